@@ -1,5 +1,5 @@
 (* C13 — what the correspondence check evaluates on every case. *)
-From Yv Require Export Common.Base C13.Model C13.Spec.
+From Yv Require Export Common.Base C13.Model C13.Spec C13.Fds.
 
 (* ------------------------------------------------------------------------ *)
 (* Stream K: operations of the kernel interface on the real VirtualSystem,
@@ -262,7 +262,41 @@ Definition run_nest (cmds : list ncmd) (obs : list Z) (status : Z) (stuck panic 
   else if negb (lf =? 0) then 22%N
   else 0%N.
 
+(* ------------------------------------------------------------------------ *)
+(* Stream P: a pipeline of k members started by a shell whose descriptor table
+   is unusual (each of 0..5 open or closed), possibly after earlier children
+   have been waited for.  Member 0 writes "a", member i (0 < i < k-1) passes
+   its input line on with the digit i appended, the last member records what
+   it read and exits with [st].  Every member also records which descriptors
+   it has open (fcntl F_GETFD on 0..9).
+   ORACLE: $? after the pipeline is [st], the last member received
+   [expected_data k], nothing is left, no stall.  MODEL: the descriptor moves
+   of Fds.pipeline_tables on the same initial table give the right wiring and
+   the same sets of open descriptors in every member. *)
+Fixpoint fds_agree (ms : list (option tbl)) (fds : list (nat * list nat)) : bool :=
+  match fds with
+  | [] => true
+  | (i, l) :: r =>
+      match nth_error ms i with
+      | Some (Some t) => list_eqb Nat.eqb (open_fds t) l && fds_agree ms r
+      | _ => false
+      end
+  end.
+
+Definition run_pipefd (lay : list bool) (k : nat) (st : N) (got : list str)
+    (fds : list (nat * list nat)) (obs : list Z) (stuck panic : bool) (lf : nat) : verdict :=
+  if stuck || panic then 20%N
+  else if negb (list_eqb Z.eqb obs [Z.of_N st]) then 25%N
+  else if negb (list_eqb str_eqb got [expected_data k]) then 25%N
+  else if negb (lf =? 0) then 22%N
+  else if (2 <=? k) && (k <=? 6) && (length lay <=? 6) && (length fds =? k) then
+    let (ms, _) := pipeline_tables true (tbl_of lay) k in
+    if wired_ok true (tbl_of lay) k && fds_agree ms fds then 0%N else 1%N
+  else 99%N.
+
 Inductive case :=
+  | CPipeFd (lay : list bool) (k : nat) (st : N) (got : list str) (fds : list (nat * list nat))
+            (obs : list Z) (stuck panic : bool) (lf : nat)
   | CNest (cmds : list ncmd) (obs : list Z) (status : Z) (stuck panic : bool) (lf : nat)
   | CTrap (by_pid : bool) (k : nat) (st signo : N) (obs : list (N * Z)) (status : Z)
           (stuck panic : bool) (left : nat)
@@ -272,6 +306,7 @@ Inductive case :=
 
 Definition run_case (c : case) : verdict :=
   match c with
+  | CPipeFd lay k st got fds obs stuck panic lf => run_pipefd lay k st got fds obs stuck panic lf
   | CNest cmds obs status stuck panic lf => run_nest cmds obs status stuck panic lf
   | CTrap b k st sg obs status stuck panic lf => run_trap b k st sg obs status stuck panic lf
   | CKern h => run_kern h
